@@ -1,0 +1,21 @@
+//go:build verif
+
+package otto
+
+// Read-only accessors used by the /verif property checks (C18). They are compiled only with
+// -tags verif and do not change any behaviour.
+
+// VerifScopeDepth reports the number of execution contexts currently on the runtime's
+// scope chain; it is 0 when no script is running.
+func VerifScopeDepth(o *Otto) int {
+	n := 0
+	for s := o.runtime.scope; s != nil; s = s.outer {
+		n++
+	}
+	return n
+}
+
+// VerifLabelCount reports the number of pending statement labels; it is 0 at rest.
+func VerifLabelCount(o *Otto) int {
+	return len(o.runtime.labels)
+}
